@@ -212,7 +212,8 @@ def report_failures(ctx: Ctx, case: Case, model: dict | None, fails: list[dict])
                              "hole 3": "union-isinstance-common-subclass",
                              "hole 4": "narrowing-masks-assignment-at-jump",
                              "hole 5": "handler-state-misses-a-raise-point",
-                             "hole 6": "jump-through-assigning-finally"}.get(model["tc"], model["tc"])
+                             "hole 6": "jump-through-assigning-finally",
+                             "hole 7": "dunder-bool-signature"}.get(model["tc"], model["tc"])
     elif "declared-unassigned-attribute" in sh and f["kind"] == "AttributeError":
         m = re.match(r"'(K\d+)' object has no attribute '(a\d+)'", f.get("msg", ""))
         observed["shape"] = "declared-unassigned-attribute"
@@ -436,6 +437,11 @@ def known_programs() -> list[Case]:
         ("ret", ("add", ("var", 1), ("intLit", 1)))]))])
     p.fill_mro()
     out.append(Case("kFinallyJump", p, [(0, [("intLit", 1)])], "replay:jump-through-assigning-finally"))
+    # mypy does not check the signature of `__bool__`
+    p = L.Prog([L.Cls([], [], [], [], [(L.BOOL_METH, L.Func([], [], I_, ("ret", ("intLit", 2))))])],
+               [L.Func([K(0)], [], I_, L.seq([("ite", ("var", 0), ("ret", ("intLit", 1)), ("pass",)), ("ret", ("intLit", 0))]))])
+    p.fill_mro()
+    out.append(Case("kBoolSig", p, [(0, [("new", 0, [])])], "replay:dunder-bool-signature"))
     out.append(Case("kMIopt", None, [], "replay:F-C01-3b-optional-isinstance-common-subclass", src=(
         "from typing import Optional\n"
         "class A:\n    def __init__(self) -> None:\n        pass\n"
@@ -461,7 +467,7 @@ def known_programs() -> list[Case]:
 
 EXPECTED_MODEL = {"kF19": (False, "ok"), "kF18": (False, "ok"), "kUnionSet": (True, "hole 1"), "kLoopCap": (True, "hole 2"),
                   "kMI": (True, "hole 3"), "kMasked": (True, "hole 4"),
-                  "kFinallyJump": (True, "hole 6")}
+                  "kFinallyJump": (True, "hole 6"), "kBoolSig": (True, "hole 7")}
 
 
 def known_stream(ctx: Ctx) -> None:
